@@ -152,6 +152,7 @@ Definition decode_frame {HS} (ops : hpack_ops HS) (max_hls max_cont : N)
       | PErrFrameSize => (pt, hs, DStop EvPanic)             (* not produced by load_frame *)
       | PNotOneFrame => (pt, hs, DStop EvPanic)              (* not produced by load_frame *)
       | PErrPriorityZero => (pt, hs, go_away_protocol)
+      | PErrGoAwayStream => (pt, hs, go_away_protocol)
       | PErr k' sid e => (pt, hs, load_error_event k' sid e)
       | POk LdIgnored => (pt, hs, DNone)
       | POk (LdFrame f) =>
@@ -544,7 +545,7 @@ Fixpoint rfc_walk (max : N) (frames : list (list N)) : list rfc_event :=
   match frames with
   | [] => []
   | f :: fs =>
-      match rfc_parse_frame max f with
+      match rfc_parse_frame_codec max f with
       | Accept w => RAccept w :: rfc_walk max fs
       | Reject c => [RReject c]
       | NotOneFrame => [RReject 0]
@@ -562,7 +563,7 @@ Fixpoint rfc_stream (fuel : nat) (max : N) (bs : list N) : list rfc_event :=
       | Some len =>
           if max <? len then [RReject FRAME_SIZE_ERROR]
           else if 9 + len <=? olen bs then
-            match rfc_parse_frame max (take (9 + len) bs) with
+            match rfc_parse_frame_codec max (take (9 + len) bs) with
             | Accept w => RAccept w :: rfc_stream fuel' max (drop (9 + len) bs)
             | Reject c => [RReject c]
             | NotOneFrame => [RReject 0]
@@ -574,8 +575,10 @@ Fixpoint rfc_stream (fuel : nat) (max : N) (bs : list N) : list rfc_event :=
 (* ---------------------------------------------------------------------------------------- *)
 (* ORACLE for the receive side (lib/props/parts/framecodec.py search_framecodec): the reference
    grammar (Ref/Rfc9113Frame.v) applied to the very octets the implementation was fed, walked in
-   lock-step with the events the implementation produced.  No part of the model of h2 above is
-   used, except on the documented deviations, where the model's verdict is the expected one.
+   lock-step with the events the implementation produced.  No part of the model of h2's frame
+   layer is used.  The grammar is the one at the codec boundary (rfc_parse_frame_codec): RST_STREAM
+   on stream 0 has to be passed up unchanged (the stream layer refuses it), CONTINUATION on stream
+   0 is refused by the CONTINUATION discipline below (no block can be open on stream 0).
 
    The oracle is exact for framing: frame boundaries, sizes, flags, stream identifiers, padding,
    priority fields, SETTINGS / PING / GOAWAY / WINDOW_UPDATE / RST_STREAM values, and the
@@ -600,6 +603,7 @@ Definition ref_fields (block : list N) : option (list (list N * list N)) :=
    malformed, an undecodable block, a header list beyond its limits.  The oracle accepts an error
    event for such a block only when the reference decoding of the block shows such a reason. *)
 Definition header_error_plausible (max_hls : N) (w : wire_frame) : bool :=
+  (* (for a complete block the flood limit does not apply: only non-final CONTINUATIONs count) *)
   let block := match w with
                | WHeaders _ _ _ _ b => b
                | WPushPromise _ _ _ b => b
@@ -609,6 +613,22 @@ Definition header_error_plausible (max_hls : N) (w : wire_frame) : bool :=
   | (HpOk, _, st) => max_hls <=? lt_field_size st
   | _ => true
   end.
+
+(* ... and for a block that is still open (no END_HEADERS yet): a content reason in what has arrived so
+   far, the size limit, or h2's own CONTINUATION-flood policy (ENHANCE_YOUR_CALM) *)
+Definition open_block_octets (o : open_block) : list N :=
+  match o with OpenHeaders _ _ _ acc => acc | OpenPush _ _ acc => acc end.
+
+Definition partial_error_plausible (max_hls : N) (block : list N) (e : ievent) : bool :=
+  match e with
+  | IGoAway r _ => r =? reason_ENHANCE_YOUR_CALM
+  | _ => false
+  end
+  || match lit_loop (S (length block)) big_limit lit_empty 0 false block with
+     | (HpOk, _, st) => max_hls <=? lt_field_size st
+     | (HpNeedMore, _, st) => max_hls <=? lt_field_size st
+     | _ => true
+     end.
 
 (* does the delivered header frame say what the reference value says? *)
 Definition header_event_matches (w : wire_frame) (max_hls : N) (e : ievent) : bool :=
@@ -631,7 +651,7 @@ Definition header_event_matches (w : wire_frame) (max_hls : N) (e : ievent) : bo
   end.
 
 (* [walk]: reference verdicts [rs] (from rfc_stream) against implementation events [is];
-   [frames] are the octets of the frames the verdicts belong to (for the deviations) *)
+   [frames] are the octets of the frames the verdicts belong to *)
 Fixpoint oracle_walk (max max_hls : N) (cur : option open_block) (rs : list rfc_event) (frames : list (list N))
          (is : list ievent) : bool :=
   match rs with
@@ -644,19 +664,12 @@ Fixpoint oracle_walk (max max_hls : N) (cur : option open_block) (rs : list rfc_
       end
   | RReject code :: _ =>
       let fr := match frames with f :: _ => f | [] => [] end in
-      match deviation_of fr, model_parse max fr with
-      | DevGoAwayStreamId, POk (LdFrame f) =>
-          match is with IFrame f' :: _ => frame_eqb f f' | _ => false end
-      | DevResetStreamZero, POk (LdFrame f) =>
-          match is with IFrame f' :: _ => frame_eqb f f' | _ => false end
-      | _, _ =>
-          (* the one place where the *code* matters to C12: a frame above the limit *)
-          let oversize := match declared_length fr with Some l => max <? l | None => false end in
-          match is with
-          | IGoAway r _ :: _ => if oversize then r =? reason_FRAME_SIZE_ERROR else true
-          | IReset _ _ :: _ => negb oversize
-          | _ => false
-          end
+      (* the one place where the *code* matters to C12: a frame above the limit *)
+      let oversize := match declared_length fr with Some l => max <? l | None => false end in
+      match is with
+      | IGoAway r _ :: _ => if oversize then r =? reason_FRAME_SIZE_ERROR else true
+      | IReset _ _ :: _ => negb oversize
+      | _ => false
       end
   | RAccept w :: rs' =>
       let frames' := match frames with _ :: t => t | [] => [] end in
@@ -678,7 +691,8 @@ Fixpoint oracle_walk (max max_hls : N) (cur : option open_block) (rs : list rfc_
                 else
                   (* a limit (flood, size) may strike in the middle of a block *)
                   match is with
-                  | e :: _ => if ievent_is_error e then true
+                  | e :: _ => if ievent_is_error e
+                              then partial_error_plausible max_hls (open_block_octets (open_extend o frag)) e
                               else oracle_walk max max_hls (Some (open_extend o frag)) rs' frames' is
                   | [] => oracle_walk max max_hls (Some (open_extend o frag)) rs' frames' is
                   end
@@ -691,16 +705,13 @@ Fixpoint oracle_walk (max max_hls : N) (cur : option open_block) (rs : list rfc_
           | WUnknown _ _ _ _ => oracle_walk max max_hls None rs' frames' is
           | WHeaders s es false p frag =>
               match is with
-              | e :: _ => if ievent_is_error e then true
+              | e :: _ => if ievent_is_error e then partial_error_plausible max_hls frag e
                           else oracle_walk max max_hls (Some (OpenHeaders s es p frag)) rs' frames' is
               | [] => oracle_walk max max_hls (Some (OpenHeaders s es p frag)) rs' frames' is
               end
           | WPushPromise s false pr frag =>
-              if match deviation_of fr with DevPushPromiseEmptyFragment => true | _ => false end
-              then expect_error
-              else
               match is with
-              | e :: _ => if ievent_is_error e then true
+              | e :: _ => if ievent_is_error e then partial_error_plausible max_hls frag e
                           else oracle_walk max max_hls (Some (OpenPush s pr frag)) rs' frames' is
               | [] => oracle_walk max max_hls (Some (OpenPush s pr frag)) rs' frames' is
               end
@@ -711,9 +722,6 @@ Fixpoint oracle_walk (max max_hls : N) (cur : option open_block) (rs : list rfc_
               | [] => false
               end
           | WPushPromise _ true _ _ =>
-              if match deviation_of fr with DevPushPromiseEmptyFragment => true | _ => false end
-              then expect_error
-              else
               match is with
               | e :: is' => if ievent_is_error e then header_error_plausible max_hls w
                             else header_event_matches w max_hls e && oracle_walk max max_hls None rs' frames' is'
@@ -748,16 +756,3 @@ Definition oracle_read (c : N * N * list N * list N * list ievent * bool) : bool
   (* an oversize frame must be answered with FRAME_SIZE_ERROR, and nothing after it *)
   oracle_walk max_frame max_hls None (rfc_stream fuel max_frame bs) (stream_frames fuel max_frame bs) impl
   && negb (existsb (fun e => match e with IPanic => true | _ => false end) impl).
-
-(* which documented deviation (1 PUSH_PROMISE empty fragment, 2 GOAWAY stream id, 3 RST_STREAM on
-   stream 0) does the stream contain?  [oracle_known code c] is FALSE when it does (the Python side
-   collects the indices of failing cases) *)
-Definition oracle_known (code : N) (c : N * N * list N * list N * list ievent * bool) : bool :=
-  let '(max_frame, _, bs, _, _, _) := c in
-  negb (existsb (fun fr => match deviation_of fr with
-                           | DevPushPromiseEmptyFragment => (code =? 1) || (code =? 0)
-                           | DevGoAwayStreamId => (code =? 2) || (code =? 0)
-                           | DevResetStreamZero => (code =? 3) || (code =? 0)
-                           | DevContinuationStreamZero => false
-                           | DevNone => false
-                           end) (stream_frames (S (length bs)) max_frame bs)).
